@@ -1,1 +1,8 @@
-pub fn hello() {}
+//! Conformance harness for falcon-rust: drives the real library and records traces for TLC.
+//! Nothing in this crate judges a property: drivers select and record, TLC decides.
+pub mod common;
+pub mod craft;
+pub mod variant;
+
+pub mod d_codec;
+pub mod d_verify;
